@@ -9,6 +9,20 @@ HERE = os.path.dirname(os.path.dirname(os.path.abspath(__file__)))
 sys.path.insert(0, HERE)
 
 CLAIMED = {
+    'C04': dict(
+        category='other',
+        text='All CFG paths of action -> dispatch -> output table -> output: the DROP outcome of the filter test cannot '
+             'reach any emission and nothing that may emit runs before the filter decision; non-drop paths dispatch '
+             'exactly once; an empty message returns before the registry; emission APIs are reachable from the '
+             'interposers only behind the output-table call (call graph with that edge cut); each registered output is '
+             'compared with the framing the property states (printf format tokens, linear length arithmetic over '
+             'strlen(message), SOCK_DGRAM, devlog field sources); stdio emissions are flushed before the output returns; '
+             'error records only on the enabled branch.',
+        design_ref='DESIGN.md §5 C04',
+        note='Message content is C05/C06; the kernel delivers what it was handed. The stdout/stderr flush defect found '
+             'on the pinned tree was replayed and repaired.',
+        technique='static analysis: CFG path counting + call-graph cut reachability + format-string/linear-length '
+                  'framing comparison'),
     'C17': dict(
         category='other',
         text='Decides the fact the property names as deciding: per record exactly one write-class call on a '
